@@ -410,7 +410,8 @@ theorem nested_ens (v : Variant) (w : World) : (nested v w).1.ens = w.ens := by
   rw [nestedOuter_ens, iterNew_ens]
 
 /-- **every operation keeps the ensemble rectangular** (repaired code) -/
-theorem rect_step (w : World) (op : Op) (hr : Rect w.ens) : Rect (step .repaired w op).1.ens := by
+theorem rect_step (w : World) (op : Op) (hr : Rect w.ens) (ho : ∀ e ∈ w.others, Rect e) :
+    Rect (step .repaired w op).1.ens := by
   cases op with
   | ctorAtoms nA nC => exact rect_alloc nA nC
   | ctorMol nA k => exact rect_allocFromMol nA k
@@ -449,5 +450,140 @@ theorem rect_step (w : World) (op : Op) (hr : Rect w.ens) : Rect (step .repaired
     · rw [iterNext_ens]; exact hr
   | loop => simp only [step]; rw [drain_ens, iterNew_ens]; exact hr
   | nestedLoop => simp only [step]; rw [nested_ens]; exact hr
+  | ctorCopyKw => exact hr
+  | swap k =>
+    simp only [step]
+    split
+    · rename_i o ho'; exact ho o (List.mem_of_getElem? ho')
+    · exact hr
+  | iterNextKeep k =>
+    simp only [step]
+    split
+    · exact hr
+    · show Rect (iterNext .repaired w k).1.ens
+      rw [iterNext_ens]; exact hr
+  | loopKeep =>
+    simp only [step]
+    show Rect (drain .repaired _ _ _).1.ens
+    rw [drain_ens, iterNew_ens]; exact hr
+  | readKept j => simp only [step]; (repeat' split) <;> exact hr
+  | writeKept j c =>
+    simp only [step]
+    split
+    · exact rect_upd w _ hr (fun e' h => rect_writeCoords _ _ _ e' hr h)
+    · exact hr
+  | dumpKept j => simp only [step]; (repeat' split) <;> exact hr
+
+/-! ### several live ensembles, kept conformers: what iteration machinery never touches -/
+
+/-- `w'` differs from `w` at most in its iterator objects and cursor -/
+def Same (w w' : World) : Prop := w'.ens = w.ens ∧ w'.others = w.others ∧ w'.kept = w.kept
+
+theorem Same.refl (w : World) : Same w w := ⟨rfl, rfl, rfl⟩
+theorem Same.trans {a b c : World} (h1 : Same a b) (h2 : Same b c) : Same a c :=
+  ⟨h2.1.trans h1.1, h2.2.1.trans h1.2.1, h2.2.2.trans h1.2.2⟩
+
+theorem iterNext_same (v : Variant) (w : World) (k : Nat) : Same w (iterNext v w k).1 := by
+  cases v
+  · simp only [iterNext]; split <;> exact ⟨rfl, rfl, rfl⟩
+  · simp only [iterNext]
+    split
+    · split <;> exact ⟨rfl, rfl, rfl⟩
+    · exact ⟨rfl, rfl, rfl⟩
+
+theorem iterNew_same (v : Variant) (w : World) : Same w (iterNew v w).1 := by
+  cases v <;> exact ⟨rfl, rfl, rfl⟩
+
+theorem drain_same (v : Variant) (fuel : Nat) (w : World) (k : Nat) : Same w (drain v fuel w k).1 := by
+  induction fuel generalizing w with
+  | zero => exact Same.refl w
+  | succ f ih =>
+    simp only [drain]
+    have h := iterNext_same v w k
+    split
+    · rename_i w' i heq
+      rw [heq] at h
+      exact Same.trans h (ih w')
+    · rename_i w' heq
+      rw [heq] at h
+      exact h
+
+theorem nestedInner_same (v : Variant) (w : World) (i : Nat) : Same w (nestedInner v w i).1 := by
+  simp only [nestedInner]
+  exact Same.trans (iterNew_same v w) (drain_same v _ _ _)
+
+theorem nestedOuter_same (v : Variant) (fuel : Nat) (w : World) (k : Nat) : Same w (nestedOuter v fuel w k).1 := by
+  induction fuel generalizing w with
+  | zero => exact Same.refl w
+  | succ f ih =>
+    simp only [nestedOuter]
+    have h := iterNext_same v w k
+    split
+    · rename_i w' i heq
+      rw [heq] at h
+      exact Same.trans h (Same.trans (nestedInner_same v w' i) (ih _))
+    · rename_i w' heq
+      rw [heq] at h
+      exact h
+
+theorem nested_same (v : Variant) (w : World) : Same w (nested v w).1 := by
+  simp only [nested]
+  exact Same.trans (iterNew_same v w) (nestedOuter_same v _ _ _)
+
+theorem upd_others (w : World) (o : Option Ens) : (upd w o).1.others = w.others ∧ (upd w o).1.kept = w.kept := by
+  cases o <;> simp [upd]
+
+/-- which operations can change the list of other live ensembles at all -/
+def touchesOthers : Op → Bool
+  | .ctorCopy | .ctorCopyKw | .swap _ => true
+  | _ => false
+
+/-- **nothing else changes**: every operation other than making a copy or switching to another ensemble - every
+write through a conformer, every append, transformation, iteration - leaves every other live ensemble as it is -/
+theorem others_frame (v : Variant) (w : World) (op : Op) (h : touchesOthers op = false) :
+    (step v w op).1.others = w.others := by
+  cases op <;> simp only [touchesOthers, Bool.true_eq_false] at h <;> simp only [step] <;>
+    first
+      | exact (upd_others w _).1
+      | rfl
+      | (split <;> first | rfl | exact (upd_others w _).1)
+      | skip
+  case iterNew => exact (iterNew_same v w).2.1
+  case iterNext k =>
+    split
+    · rfl
+    · exact (iterNext_same v w k).2.1
+  case loop => exact ((iterNew_same v w).trans (drain_same v _ _ _)).2.1
+  case nestedLoop => exact (nested_same v w).2.1
+  case iterNextKeep k =>
+    split
+    · rfl
+    · exact (iterNext_same v w k).2.1
+  case loopKeep => exact ((iterNew_same v w).trans (drain_same v _ _ _)).2.1
+  case readKept j => (repeat' split) <;> rfl
+  case dumpKept j => (repeat' split) <;> rfl
+
+/-- the other live ensembles after a step are the ones before it, plus possibly the ensemble that was current
+(a copy keeps its source alive, a swap puts the current one among the others) -/
+theorem others_step (w : World) (op : Op) : ∀ e ∈ (step .repaired w op).1.others, e ∈ w.others ∨ e = w.ens := by
+  intro e he
+  by_cases h : touchesOthers op = false
+  · rw [others_frame _ w op h] at he; exact Or.inl he
+  · cases op <;> simp only [touchesOthers, not_true_eq_false] at h
+    · simp only [step, copyCtor, List.mem_cons] at he
+      rcases he with rfl | he
+      · exact Or.inr rfl
+      · exact Or.inl he
+    · simp only [step] at he
+      split at he
+      · simp only at he
+        rcases mem_set _ _ _ _ he with rfl | hm
+        · exact Or.inr rfl
+        · exact Or.inl hm
+      · exact Or.inl he
+    · simp only [step, copyCtor, List.mem_cons] at he
+      rcases he with rfl | he
+      · exact Or.inr rfl
+      · exact Or.inl he
 
 end Molli.Lemmas.Ensemble
